@@ -38,7 +38,20 @@ def expectedPhasent (rows : Rows) (files : List (String × String)) (fl : List S
   -- only the configuration the generator uses is modelled: no cut-off on matches or length
   if refs.isEmpty || opt fl "--match-cutoff" != some "-1" then none else
   let tbl ← geneticCode (codeOf fl)
-  let c : NTCfg := { den := 2, gapopen := -24, gapextend := -1, scores := none, reverse := flag fl "--reverse",
+  -- gap penalties in half units.  Without `--gap-open` the command uses −10, not the −12 its help text announces:
+  -- the variable behind the flag is shared with `phase` and `sw`, and the registration that runs last (cmd/sw.go,
+  -- −10 / −0.5) decides the value every command starts from (DESIGN 7.2)
+  let half (v : String) : Option Int :=
+    let neg := v.startsWith "-"
+    let body := if neg then (v.drop 1).toString else v
+    (match body.splitOn "." with
+     | [a] => a.toNat?.map fun x => (2 * x : Nat)
+     | [a, "5"] => a.toNat?.map fun x => 2 * x + 1
+     | [a, "0"] => a.toNat?.map fun x => 2 * x
+     | _ => none).map fun n => if neg then -(n : Int) else (n : Int)
+  let go ← half ((opt fl "--gap-open").getD "-10")
+  let ge ← half ((opt fl "--gap-extend").getD "-0.5")
+  let c : NTCfg := { den := 2, gapopen := go, gapextend := ge, scores := none, reverse := flag fl "--reverse",
                      cutend := flag fl "--cut-end", fixed := true, alphaFixed := true }
   let badF := "rc=1 out= files="
   if refs.any (fun r => r.2.length < 3) then some badF else
